@@ -559,13 +559,26 @@ def r_position(c):
         raise AnalysisError(f"only {n} enumerate() sites over node fields found (floor 4)")
 
 
+def r_state(c):
+    """a transformation is a function of the graph it is given: nothing it builds a
+    result from may be shared with earlier calls (a module-level dict handed out as
+    "the empty bindings" is filled by the first lowering that writes into it)"""
+    from pta.rules.common import check_no_shared_state
+    mods = [x for x in c.model.modules if x.startswith("pytato.transform")
+            or x in ("pytato.utils", "pytato.codegen", "pytato.array", "pytato.scalar_expr")]
+    check_no_shared_state(
+        c, "R05-STATE", mods,
+        "the result of a transformation depends on which graphs were transformed "
+        "earlier in the process", floor_funcs=300)
+
+
 SPEC = Spec(
     prop="C05",
     rules=[r_nomut, r_rebuild, r_rebuild_guard, r_keys, r_tagonly, r_ident_keyed,
-           r_dedup_key, r_position],
+           r_dedup_key, r_position, r_state],
     floors={"R05-NOMUT": 300, "R05-REBUILD": 60, "R05-IDENTITY": 40,
             "R05-REBUILD-GUARD": 10, "R05-KEYS": 15, "R05-TAGONLY": 40,
-            "R05-IDENT-KEYED": 4, "R05-DEDUP-KEY": 8, "R05-POSITION": 4},
+            "R05-IDENT-KEYED": 4, "R05-DEDUP-KEY": 8, "R05-POSITION": 4, "R05-STATE": 10},
     explanation=(
         "R05-NOMUT: effect analysis (access-path flow) of every function and method "
         "of the transformation/analysis modules: no attribute/subscript store, "
@@ -586,7 +599,10 @@ SPEC = Spec(
         "key identifies a view (pointer, shape, strides, dtype). R05-POSITION: "
         "enumerate() over a node's sequence field runs over the whole field, never "
         "over a filtered view (positions among survivors are not positions in the "
-        "field)."),
+        "field). R05-KEYS also: a mapping is never rebuilt by zipping its key sequence "
+        "with a separately ordered value sequence. R05-STATE: the transformation "
+        "modules keep no state that outlives a call and hand out no module-level "
+        "container (canary fixture)."),
     not_decided=(
         "Value preservation for all inputs; idempotence of deduplicate / dead-code "
         "elimination / MPMS; positional correctness inside a rebuilt tuple "
